@@ -23,6 +23,7 @@ fn main() {
         Some("token") => m_token::run(),
         Some("cping") => m_cping::run(),
         Some("cexec") => m_cexec::run(),
+        Some("cexec13") => m_cexec::run13(),
         Some("streams") => m_cexec::run_streams(),
         Some("crun") => m_crun::run(),
         Some("cchan") => m_cchan::run(),
